@@ -6,13 +6,13 @@ V = os.path.dirname(os.path.dirname(os.path.abspath(__file__)))
 sys.path.insert(0, V)
 from rules import engine, census
 from rules.facts import Facts
-tab = {"entries": {}}
+tab = {"fns": {}}
 for cfg in engine.QUICK_CONFIGS:
     path, th, fresh = engine.export_facts(cfg)
     f = Facts(path)
     t = census.dump_table(census.census_of(f))
-    for e, d in t["entries"].items():
-        de = tab["entries"].setdefault(e, {})
+    for e, d in t["fns"].items():
+        de = tab["fns"].setdefault(e, {})
         for k, rows in d.items():
             cur = de.setdefault(k, [])
             for r in rows:
@@ -20,5 +20,5 @@ for cfg in engine.QUICK_CONFIGS:
                     cur.append(r)
 out = sys.argv[1] if len(sys.argv) > 1 else census.TABLE
 json.dump(tab, open(out, "w"), indent=1, sort_keys=True)
-n = sum(len(v) for d in tab["entries"].values() for v in d.values())
-print("entries", len(tab["entries"]), "leaf keys", sum(len(d) for d in tab["entries"].values()), "instances", n)
+n = sum(len(v) for d in tab["fns"].values() for v in d.values())
+print("functions", len(tab["fns"]), "leaf keys", sum(len(d) for d in tab["fns"].values()), "instances", n)
